@@ -42,6 +42,14 @@ func (x *Explorer) ProveLeq(a, b *Term) bool { // a <= b
 		if lo, has := x.Lower(a.Args[1]); has && lo >= 0 {
 			return x.ProveLeq(a.Args[0], b)
 		}
+		if x.depth < 3 && x.NonNeg(a.Args[1]) {
+			x.depth++
+			r := x.ProveLeq(a.Args[0], b)
+			x.depth--
+			if r {
+				return true
+			}
+		}
 	}
 	// a' + k <= b' + k  <=  a' <= b'
 	if a.Kind == KBin && b.Kind == KBin && a.Op == token.ADD && b.Op == token.ADD {
@@ -190,6 +198,15 @@ func (x *Explorer) ProveLt(a, b *Term) bool { // a < b
 func (x *Explorer) NonNeg(a *Term) bool {
 	if lo, has := x.Lower(a); has && lo >= 0 {
 		return true
+	}
+	// A - B >= 0  <=  B <= A
+	if a.Kind == KBin && a.Op == token.SUB && x.depth < 3 {
+		x.depth++
+		r := x.ProveLeq(a.Args[1], a.Args[0])
+		x.depth--
+		if r {
+			return true
+		}
 	}
 	return x.Prove(x.Not(x.Lt(a, x.T.Int(0))))
 }
